@@ -1066,6 +1066,34 @@ impl<'a, 'b, R: FileManager> ValueModuleWalker<'a, R, AddressedQualifiedValue>
     }
 }
 
+/// A semantically computed type may still carry a negation (`number` without `1`, `string`
+/// without `"a"`): no validator can be generated for those.
+fn contains_negation(rt: &Runtype) -> bool {
+    match &rt.kind {
+        RuntypeKind::StNot(_) => true,
+        RuntypeKind::Array(t) | RuntypeKind::Set(t) => contains_negation(t),
+        RuntypeKind::Map(k, v) => contains_negation(k) || contains_negation(v),
+        RuntypeKind::Tuple {
+            prefix_items,
+            items,
+        } => {
+            prefix_items.iter().any(contains_negation)
+                || items.as_ref().is_some_and(|it| contains_negation(it))
+        }
+        RuntypeKind::AnyOf(vs) | RuntypeKind::AllOf(vs) => vs.iter().any(contains_negation),
+        RuntypeKind::Object {
+            vs,
+            indexed_properties,
+        } => {
+            vs.values().any(|it| contains_negation(it.inner()))
+                || indexed_properties.as_ref().is_some_and(|it| {
+                    contains_negation(&it.key) || contains_negation(it.value.inner())
+                })
+        }
+        _ => false,
+    }
+}
+
 impl<'a, R: FileManager> FrontendCtx<'a, R> {
     pub fn new(files: &'a mut R, parser_file: BffFileName, settings: &'a BeffUserSettings) -> Self {
         FrontendCtx {
@@ -1741,7 +1769,7 @@ impl<'a, R: FileManager> FrontendCtx<'a, R> {
                                     DiagnosticInfoMessage::AnyhowError(e.to_string()),
                                 )
                             })?;
-                        Ok(res)
+                        self.ensure_no_negation(res, anchor)
                     }
                     _ => self.error(
                         anchor,
@@ -3005,6 +3033,19 @@ impl<'a, R: FileManager> FrontendCtx<'a, R> {
         }
     }
 
+    fn ensure_no_negation(&mut self, rt: Runtype, anchor: &Anchor) -> Res<Runtype> {
+        if contains_negation(&rt) {
+            return self.error(
+                anchor,
+                DiagnosticInfoMessage::AnyhowError(
+                    "the computed type excludes values from an infinite set and cannot be validated"
+                        .to_string(),
+                ),
+            );
+        }
+        Ok(rt)
+    }
+
     fn semtype_to_runtype(
         &mut self,
         access_st: Rc<SemType>,
@@ -3033,7 +3074,8 @@ impl<'a, R: FileManager> FrontendCtx<'a, R> {
             self.box_error(anchor, DiagnosticInfoMessage::AnyhowError(any.to_string()))
         })?;
         for t in tail {
-            self.insert_definition(t.name.clone(), t.schema)?;
+            let schema = self.ensure_no_negation(t.schema, anchor)?;
+            self.insert_definition(t.name.clone(), schema)?;
         }
         Ok(head.schema)
     }
@@ -3138,7 +3180,8 @@ impl<'a, R: FileManager> FrontendCtx<'a, R> {
             self.box_error(anchor, DiagnosticInfoMessage::AnyhowError(e.to_string()))
         })?;
 
-        self.semtype_to_runtype(access_st, &mut ctx, anchor)
+        let res = self.semtype_to_runtype(access_st, &mut ctx, anchor)?;
+        self.ensure_no_negation(res, anchor)
     }
 
     fn extract_indexed_access_type(
@@ -3184,7 +3227,8 @@ impl<'a, R: FileManager> FrontendCtx<'a, R> {
             self.box_error(&anchor, DiagnosticInfoMessage::AnyhowError(e.to_string()))
         })?;
 
-        self.semtype_to_runtype(keyof_st, &mut ctx, &anchor)
+        let res = self.semtype_to_runtype(keyof_st, &mut ctx, &anchor)?;
+        self.ensure_no_negation(res, &anchor)
     }
     fn convert_mapped_type(&mut self, k: &TsMappedType, file_name: BffFileName) -> Res<Runtype> {
         let anchor = Anchor {
